@@ -191,19 +191,33 @@ def c08d(ctx, tu):
                witness=None if bad is None or bad[1] is None else {"path": fmt_trace(bad[1])})
     # match_conditions: false on the failing edge, true after the loop
     for fn in tu.need(A["match_conditions"], 3):
-        rets = [(b["id"], e.get("x")) for b, e in fn.events() if e["e"] == "return"]
-        vals = sorted(str(x) for _, x in rets)
-        ok = vals == sorted([str(["bool", False]), str(["bool", True])])
-        if ok:
-            for bid in fn.blocks:
-                c = cfg.cond_of(fn, bid)
-                if c is not None and lib.tree_name(cond_shape(c)[0]) == A["condition_check"]:
-                    t, pol = cond_shape(c)
-                    fail_edge = 1 if pol else 0
-                    rb = [b for b, x in rets if x == ["bool", False]][0]
-                    ok = ok and cfg.edge_dominates(fn, (bid, fail_edge), rb)
-        ctx.ob("C08.d", A["match_conditions"] + " result", ok, pattern=fn.pat, unit=tu.name, inst=fn.q,
-               detail="" if ok else "match_conditions must yield false exactly when a clause fails and true otherwise")
+        from rules.common import LoopModel, iter_calls, loop_of, Oracle
+        from engine.table import Unknown
+        try:
+            l = loop_of(fn, A["condition_check"])
+            if l is None:
+                raise Unknown("loop over the WITH clauses not found")
+            lm = LoopModel(fn, l)
+            why = None
+            for holds in (True, False):
+                o = Oracle(calls=iter_calls("elem", {A["condition_check"]: holds}), params={0: ("obj", "params")},
+                           any_member=True).descend_into(tu)
+                res, it = lm.step(o, at="elem")
+                want = ("stop", lm.entry) if holds else ("return", False)
+                if res != want and why is None:
+                    why = "a clause that %s: expected %s, code does %s" % (
+                        "holds" if holds else "fails", "go on to the next clause" if holds else "return false", res)
+            o = Oracle(calls=iter_calls("end", {A["condition_check"]: False}), params={0: ("obj", "params")},
+                       any_member=True).descend_into(tu)
+            res, it = lm.step(o, at="end")
+            if res != ("return", True) and why is None:
+                why = "after the last clause the result must be true, code does %s" % (res,)
+            ctx.ob("C08.d", A["match_conditions"] + " result", why is None, pattern=fn.pat, unit=tu.name, inst=fn.q,
+                   detail="" if why is None else "match_conditions must yield false exactly when a clause fails and "
+                   "true otherwise: " + why)
+        except Unknown as u:
+            ctx.ob("C08.d", A["match_conditions"] + " result", None, pattern=fn.pat, unit=tu.name, inst=fn.q,
+                   detail="cannot interpret: %s" % u)
     # matches == match_parameters && match_conditions (C01.d)
     for fn in tu.need(A["matches"], 3):
         rets = [e.get("x") for b, e in fn.events() if e["e"] == "return"]
